@@ -407,6 +407,10 @@ package main
 //@   ensures [C07] given_raised_by_admin_only: old((asUid in t.perUser) && !t.perUser[asUid].deleted && !hasO(t.perUser[asUid].modeGiven)) && (asUid in t.perUser) && t.perUser[asUid].modeGiven != old(t.perUser[asUid].modeGiven) ==> t.cat == types.TopicCatGrp && old((t.perUser[asUid].modeGiven & types.ModeApprove) != 0)
 //@   ensures [C07] join_gate: err == nil && (asUid in t.perUser) ==> hasJ(t.perUser[asUid].modeGiven) || !hasJ(t.perUser[asUid].modeWant)
 //@   ensures [C07] p2p_modes: t.cat == types.TopicCatP2P && (asUid in t.perUser) && t.perUser[asUid].modeWant != old(t.perUser[asUid].modeWant) ==> (t.perUser[asUid].modeWant & ^types.ModeCP2P) == 0 && (t.perUser[asUid].modeWant & types.ModeApprove) != 0
+//@   assert at call store.SubsPersistenceInterface.Create [C07] previous_grant_restored: !old(asUid in t.perUser) && !asChan && t.cat != types.TopicCatP2P && t.cat != types.TopicCatSys && gotFound && gotGiven != types.ModeUnset ==> len($1) == 1 && $1[0].ModeGiven == gotGiven
+//@   assert at call store.SubsPersistenceInterface.Update#1 [C08] given_written: ("ModeGiven" in $3) == (userData.modeGiven != old(t.perUser[asUid].modeGiven))
+//@   assert at call store.SubsPersistenceInterface.Update#1 [C08] want_written: ("ModeWant" in $3) == (userData.modeWant != old(t.perUser[asUid].modeWant))
+//@   ensures [C08] written_through: err == nil && old((asUid in t.perUser) && !t.perUser[asUid].deleted) && (asUid in t.perUser) && (t.perUser[asUid].modeGiven != old(t.perUser[asUid].modeGiven) || t.perUser[asUid].modeWant != old(t.perUser[asUid].modeWant)) ==> subUpdates > old(subUpdates)
 //@   assert at call store.SubsPersistenceInterface.Create [C07] limit: t.cat == types.TopicCatGrp && !asChan && !old(asUid in t.perUser) ==> len(t.perUser) < globals.maxSubscriberCount
 //@   ensures [C10] online_not_raised: forall u types.Uid :: (u in t.perUser) && old(u in t.perUser) ==> t.perUser[u].online <= old(t.perUser[u].online) || t.perUser[u].online == 0
 // (a subscriber whose grant lacks J is answered 403 only after the requested change has been applied: known finding)
@@ -462,7 +466,8 @@ package main
 //@   requires t != nil
 //@   modifies inferred
 //@   loop 1
-//@     iterates [C06] owner_is_effective: t.owner != prev(t.owner) ==> (t.owner in t.perUser) && hasO(effMode(t, t.owner))
+//@     iterates [C06,C08] owner_is_effective: t.owner != prev(t.owner) ==> (t.owner in t.perUser) && hasO(effMode(t, t.owner))
+//@     iterates [C08] row_loaded: (uid in t.perUser) && t.perUser[uid].modeWant == sub.ModeWant && t.perUser[uid].modeGiven == sub.ModeGiven && t.perUser[uid].readID == sub.ReadSeqId && t.perUser[uid].recvID == sub.RecvSeqId && t.perUser[uid].delID == sub.DelId && !t.perUser[uid].deleted && t.perUser[uid].online == 0
 
 // Deleting a topic for everybody: only at the owner's request (or the last participant of a p2p topic).
 //@ func (h *Hub) topicUnreg(sess *Session, topic string, msg *ClientComMessage, reason int) (err error)
@@ -844,3 +849,14 @@ package main
 //@ func pbDefaultAcsDeserialize(defacs *pbx.DefaultAcsMode) (res *MsgDefaultAcsMode)
 //@   modifies nothing
 //@   ensures [C20] kept: defacs != nil && (defacs.Auth != "" || defacs.Anon != "") ==> res != nil && res.Auth == defacs.Auth && res.Anon == defacs.Anon
+
+// {set sub} on a topic that is not loaded: the requester's own subscription only, no ownership change either way, p2p
+// modes within JRWPA keeping A.
+//@ func replyOfflineTopicSetSub(sess *Session, msg *ClientComMessage)
+//@   requires [C06] sess != nil && msg != nil && msg.Set != nil
+//@   requires [C13,assumed] routed: len(msg.RcptTo) >= 3 && (hasPrefix(msg.RcptTo, "usr") || hasPrefix(msg.RcptTo, "p2p") || hasPrefix(msg.RcptTo, "grp") || hasPrefix(msg.RcptTo, "chn") || hasPrefix(msg.RcptTo, "fnd") || hasPrefix(msg.RcptTo, "sys"))
+//@   modifies *
+//@   assert at call store.SubsPersistenceInterface.Update [C06] no_ownership_gained_offline: ("ModeWant" in $3) ==> (hasO(modeWant) ==> gotWantHasO)
+//@   assert at call store.SubsPersistenceInterface.Update [C06] no_ownership_dropped_offline: ("ModeWant" in $3) && !hasPrefix(msg.RcptTo, "p2p") ==> (gotWantHasO ==> hasO(modeWant))
+//@   assert at call store.SubsPersistenceInterface.Update [C07] own_subscription_only: $2 == types.ParseUserId(msg.AsUser) && (msg.Set.Sub == nil || msg.Set.Sub.User == "" || msg.Set.Sub.User == msg.AsUser)
+//@   assert at call store.SubsPersistenceInterface.Update [C07] p2p_modes: ("ModeWant" in $3) && hasPrefix(msg.RcptTo, "p2p") ==> (modeWant & ^types.ModeCP2P) == 0 && (modeWant & types.ModeApprove) != 0
